@@ -162,7 +162,8 @@ def run_replay(pid, outdir, n, plan):
         out = r.stdout + r.stderr
     except subprocess.TimeoutExpired as e:
         out = "TIMEOUT\n" + (e.stdout or "") + (e.stderr or "")
-    return {"cmd": " ".join(cmd), "output": out[-6000:], "confirmed": "REPLAY-CONFIRMED" in out,
+    marks = ["REPLAY-CONFIRMED"] + list(plan.get("confirm_on") or [])  # e.g. the race detector's report
+    return {"cmd": " ".join(cmd), "output": out[-6000:], "confirmed": any(m in out for m in marks), "marks": marks,
             "seconds": round(time.time() - t0, 2), "test_file": test_path}
 
 
@@ -213,7 +214,7 @@ def main():
             return 2
         r = subprocess.run(rp["cmd"].split(), cwd=REPO, env=GOENV, capture_output=True, text=True)
         print(r.stdout + r.stderr)
-        return 1 if "REPLAY-CONFIRMED" in (r.stdout + r.stderr) else 0
+        return 1 if any(m in (r.stdout + r.stderr) for m in (rp.get("marks") or ["REPLAY-CONFIRMED"])) else 0
 
     build_govc()
     if args.overlay:
